@@ -332,6 +332,13 @@ func Read_str(str string, cursor *Position, placeholderValues *HashMap, ns ...En
 		matches := moduleNamePrefixRE.FindStringSubmatch(str)
 		if matches != nil {
 			cursor = NewCursorFile(matches[1])
+			// the module line is metadata, not part of the module's text: rows are
+			// counted from the line that follows it
+			if i := strings.Index(str, "\n"); i >= 0 {
+				str = str[i+1:]
+			} else {
+				str = ""
+			}
 		}
 	}
 	tokens, err := tokenize(str, cursor)
